@@ -235,7 +235,7 @@ func rootIdentObj(e ast.Expr, info *types.Info) types.Object {
 }
 
 func c02(c *core.Ctx, r *core.Report) {
-	r.Explain("R02.bind ('validated that data'): every condition set attached to a summary edge is either nil, a literal without conditions, or the path condition filtered to predicates on the very value that is the edge's destination (AsPredicateTo(dest) with dest the destination argument of the same add*Edge call). R02.drop: in taint.addNext the only validator-based early return iterates the conditions of the edge being followed and passes each condition's value and polarity to isValidatorCondition; in Visit the sanitizer stop tests the node being expanded. R02.polarity: isValidatorCondition accepts a direct boolean validator call only under positive polarity, flips polarity under negation, and ties nil-error checks to the `== nil` sense. R02.allpaths: the conditions decorating an edge must hold on every path from the source to the destination: the path-condition computation must not take the conditions of a single found path without a dominance/all-paths restriction (today it does: KNOWN-FINDING with reproducer).")
+	r.Explain("R02.bind ('validated that data'): every condition set attached to a summary edge is either nil, a literal without conditions, or the path condition filtered to predicates on the very value that is the edge's destination (AsPredicateTo(dest) with dest the destination argument of the same add*Edge call). R02.drop: in taint.addNext the only validator-based early return iterates the conditions of the edge being followed and passes each condition's value and polarity to isValidatorCondition; in Visit the sanitizer stop tests the node being expanded. R02.polarity: isValidatorCondition accepts a direct boolean validator call only under positive polarity, flips polarity under negation, and ties nil-error checks to the `== nil` sense. R02.whole: lang.ValuesWithSameData peels field/tuple projections off one parameter only (found from its body); isValuePredicateTo (closures included) passes the predicate's argument in the whole position and the flowing value in the part position. R02.allpaths: the conditions decorating an edge must hold on every path from the source to the destination: the path-condition computation must not take the conditions of a single found path without a dominance/all-paths restriction (today it does: KNOWN-FINDING with reproducer).")
 	r.NotDecided("whether a flow is dropped only when all paths are validated, beyond the structural R02.allpaths clause; sanitizer semantics over all programs.")
 	p := c.Pkg("analysis/dataflow")
 	if p == nil {
@@ -445,6 +445,8 @@ func c02(c *core.Ctx, r *core.Report) {
 	}
 	r.Floor("R02.polarity", 3, "call, negation, nil check")
 
+	c02whole(c, r)
+
 	// ---- R02.allpaths
 	ff := c.Func("analysis/dataflow", "FindPathBetweenBlocks")
 	sp := c.Func("analysis/dataflow", "SimplePathCondition")
@@ -550,4 +552,127 @@ func exprShape(e ast.Expr, fd *ast.FuncDecl, info *types.Info) string {
 		return ""
 	}
 	return outer + "." + fse.Sel.Name + ":" + kind + "." + se.Sel.Name
+}
+
+// c02whole (R02.whole): lang.ValuesWithSameData(whole, part) is asymmetric: it
+// peels field loads / tuple extractions off ONE of its parameters only ("part
+// loads a field of whole"). A validator applied to a struct validates a field
+// loaded from it, never the converse. The rule finds the peeled parameter from
+// the function's own body and requires, at every call outside package lang,
+// that the peeled (part) position receives the value flowing to the sink (the
+// `val` parameter of isValuePredicateTo) and the other (whole) position an
+// argument of the predicate call. If both parameters are peeled the relation is
+// symmetric and the rule is vacuous.
+func c02whole(c *core.Ctx, r *core.Report) {
+	same := c.Func("analysis/lang", "ValuesWithSameData")
+	if same == nil {
+		r.Fail("infra.anchor-unresolved", "R02.whole|analysis/lang.ValuesWithSameData", "", "not found")
+		return
+	}
+	r.Analysed("analysis/lang.ValuesWithSameData")
+	peeled := map[int]bool{}
+	for _, b := range same.Blocks {
+		for _, ins := range b.Instrs {
+			call, ok := ins.(*ssa.Call)
+			if !ok {
+				continue
+			}
+			sc := call.Call.StaticCallee()
+			if sc == nil || (sc.Name() != "MatchLoadField" && sc.Name() != "MatchExtract") || len(call.Call.Args) != 1 {
+				continue
+			}
+			if i := core.ParamIndex(same, call.Call.Args[0]); i >= 0 {
+				peeled[i] = true
+			}
+		}
+	}
+	if len(peeled) != 1 {
+		r.OK("R02.whole", "analysis/lang.ValuesWithSameData|asymmetry", c.Pos(same.Pos()), fmt.Sprintf("field/tuple projections are peeled off %d parameter(s): the relation is not one-sided, argument order is immaterial", len(peeled)))
+		return
+	}
+	part := 0
+	for i := range peeled {
+		part = i
+	}
+	whole := 1 - part
+	r.OK("R02.whole", "analysis/lang.ValuesWithSameData|asymmetry", c.Pos(same.Pos()), fmt.Sprintf("projections are peeled off parameter #%d only (the part); parameter #%d is the whole", part, whole))
+	host := c.Func("analysis/dataflow", "isValuePredicateTo")
+	if host == nil {
+		r.Fail("infra.anchor-unresolved", "R02.whole|analysis/dataflow.isValuePredicateTo", "", "not found")
+		return
+	}
+	r.Analysed("analysis/dataflow.isValuePredicateTo")
+	e := core.NewDepEngine(c)
+	predP, valP := ssa.Value(host.Params[0]), ssa.Value(host.Params[1])
+	// roots of a value of host or of one of its closures, expressed over host's parameters; a closure parameter
+	// stands for the elements handed to the callback by the call the closure is passed to
+	var rootsOf func(fn *ssa.Function, v ssa.Value, depth int) core.DepSet
+	rootsOf = func(fn *ssa.Function, v ssa.Value, depth int) core.DepSet {
+		res := core.DepSet{}
+		for root := range e.Deps(v) {
+			if fn == host || depth > 3 {
+				res[root] = true
+				continue
+			}
+			parent := fn.Parent()
+			if parent == nil {
+				continue
+			}
+			for _, b := range parent.Blocks {
+				for _, ins := range b.Instrs {
+					mc, ok := ins.(*ssa.MakeClosure)
+					if !ok || mc.Fn != ssa.Value(fn) {
+						continue
+					}
+					switch x := root.(type) {
+					case *ssa.FreeVar:
+						for i, fv := range fn.FreeVars {
+							if fv == x {
+								for rr := range rootsOf(parent, mc.Bindings[i], depth+1) {
+									res[rr] = true
+								}
+							}
+						}
+					case *ssa.Parameter:
+						if mc.Referrers() != nil {
+							for _, ref := range *mc.Referrers() {
+								if ci, ok := ref.(ssa.CallInstruction); ok {
+									for _, a := range ci.Common().Args {
+										if a != ssa.Value(mc) {
+											for rr := range rootsOf(parent, a, depth+1) {
+												res[rr] = true
+											}
+										}
+									}
+								}
+							}
+						}
+					}
+				}
+			}
+		}
+		return res
+	}
+	n := 0
+	fns := append([]*ssa.Function{host}, host.AnonFuncs...)
+	for _, fn := range fns {
+		for _, b := range fn.Blocks {
+			for _, ins := range b.Instrs {
+				call, ok := ins.(*ssa.Call)
+				if !ok || call.Call.StaticCallee() != same || len(call.Call.Args) != 2 {
+					continue
+				}
+				n++
+				wr, pr := rootsOf(fn, call.Call.Args[whole], 0), rootsOf(fn, call.Call.Args[part], 0)
+				ok1 := wr[predP] && !wr[valP]
+				ok2 := pr[valP] && !pr[predP]
+				r.Check(ok1 && ok2, "R02.whole", fmt.Sprintf("analysis/dataflow.isValuePredicateTo|ValuesWithSameData#%d", n), c.Pos(call.Pos()),
+					"the predicate's argument is the whole and the flowing value the part: validating a struct validates its fields, not the converse",
+					"ValuesWithSameData is called with the flowing value in the whole position and the predicate's argument in the part position: a validator applied to ONE field of a struct (if Validate(r.User) { sink(r) }) is taken to validate the whole struct, and flows through its other fields are dropped as validated")
+			}
+		}
+	}
+	if n == 0 {
+		r.Fail("R02.whole", "analysis/dataflow.isValuePredicateTo|ValuesWithSameData", c.Pos(host.Pos()), "isValuePredicateTo no longer relates the predicate's arguments to the flowing value through ValuesWithSameData")
+	}
 }
